@@ -62,9 +62,21 @@ def factor(unit):
     return _factor[unit]
 
 
+_STYLE = ['plain']
+
+
 def num(x):
     """text of a number that YAML reads as a number and the unit grammar reads as a number"""
     x = float(x)
+    if _STYLE[0] == 'exponent' and x == x and abs(x) not in (float('inf'),):
+        # the same decimal number with an integer mantissa and a power of ten: 0.5 -> 5e-1, 12.25 -> 1225e-2, 300.0 -> 3000e-1
+        import decimal
+        sign, digits, exp = decimal.Decimal(repr(x)).as_tuple()
+        if isinstance(exp, int):
+            mant = ''.join(map(str, digits)).lstrip('0') or '0'
+            if exp >= 0:
+                mant, exp = mant + '0', exp - 1
+            return '%s%se%d' % ('-' if sign else '', mant, exp)
     if x == int(x) and abs(x) < 1e15:
         return '%d' % int(x) if abs(x) < 1e6 else repr(x)
     return repr(x)
@@ -93,6 +105,14 @@ def present_T(T, how):
 
 def render_group(g, pres):
     """pres: {'H': how, 'S': how, 'Cp': how (or list per point), 'T': how, 'order': [...]}; returns YAML lines (indented 8)"""
+    _STYLE[0] = pres.get('num') or 'plain'
+    try:
+        return _render_group(g, pres)
+    finally:
+        _STYLE[0] = 'plain'
+
+
+def _render_group(g, pres):
     lines = []
     Th = pres['T']
     lines.append('T_ref: %s' % present_T(g['T_ref'], Th))
